@@ -127,7 +127,7 @@ JUDGES = {"cmd": judge_cmd, "conflict": judge_conflict}
 
 def shards(tier, seed):
     T = tier == "thorough"
-    return [{"name": "cmds-%d" % i, "count": 420 if T else 55} for i in range(16)]
+    return [{"name": "cmds-%d" % i, "count": 1200 if T else 140} for i in range(16)]
 
 
 def _steps_for(rng, cmd, acc, xm):
